@@ -55,9 +55,19 @@ theorem extends_allocView (st : Heap × List (Name × Ref)) (nv : Name × AccVie
   · exact ⟨_, List.append_assoc _ _ _⟩
   · exact ⟨_, rfl⟩
 
+theorem extends_allocProp (st : Heap × List (Name × Ref)) (ke : Name × EntryV) :
+    Extends st.1 (allocProp st ke).1 := by
+  unfold allocProp
+  split
+  · exact ⟨_, rfl⟩
+  · exact Extends.refl _
+
+theorem extends_layoutProp (w : World) (cv : ClassV) : Extends w.heap (layoutProp w cv).1 :=
+  extends_foldl _ extends_allocProp cv.dict (w.heap, [])
+
 theorem extends_layout (w : World) (cv : ClassV) : Extends w.heap (layout w cv).heap := by
-  show Extends w.heap (layoutAcc w cv (layoutDecl w cv)).1
-  exact (extends_foldl _ (extends_allocDecl _) cv.dict (w.heap, [])).trans
+  show Extends w.heap (layoutAcc (w.restrictTo cv.decl.mro.tail) cv (layoutDecl w cv)).1
+  exact ((extends_layoutProp w cv).trans (extends_foldl _ (extends_allocDecl _) cv.dict ((layoutProp w cv).1, []))).trans
     (extends_foldl _ (extends_allocAcc _ _ _) cv.dict ((layoutDecl w cv).1, []))
 
 theorem extends_define (T : Tables) (w : World) (d : ClassDecl) : Extends w.heap (defineClass T w d).heap :=
@@ -145,8 +155,8 @@ theorem records_step (T : Tables) (w : World) (op : Op) (o : Owner) (ho : o ≠ 
     | inst m =>
       have hm : m ≠ n := by intro h; exact ho (by simp [Op.target, h])
       simp only [step, World.accessiblesOf, World.roots, findInst_instantiate_ne _ _ _ _ _ _ hm, and_self]
-  | setprop i p k v =>
-    have : (step T w (.setprop i p k v)).classes = w.classes ∧ (step T w (.setprop i p k v)).insts = w.insts := by
+  | setprop i p pa k v =>
+    have : (step T w (.setprop i p pa k v)).classes = w.classes ∧ (step T w (.setprop i p pa k v)).insts = w.insts := by
       simp only [step, setprop]
       repeat' split
       all_goals exact ⟨rfl, rfl⟩
@@ -182,7 +192,7 @@ theorem accessible_mem_roots {w : World} {o : Owner} {n : Name} {r : Ref} (h : (
     | some cr =>
       simp only [hc] at h ⊢
       simp only [List.mem_append, List.mem_map]
-      exact Or.inl (Or.inl ⟨(n, r), h, rfl⟩)
+      exact Or.inl (Or.inl (Or.inl (Or.inl ⟨(n, r), h, rfl⟩)))
   | inst i =>
     simp only [World.accessiblesOf, World.roots] at h ⊢
     cases hc : w.findInst i with
@@ -203,7 +213,7 @@ theorem frame_step (T : Tables) (w : World) (op : Op) (r : Ref) (hr : r < w.heap
   cases op with
   | define d => exact (extends_define T w d).get hr
   | inst n c cfg => exact (extends_instantiate T w n c cfg).get hr
-  | setprop i p k v =>
+  | setprop i p pa k v =>
     simp only [step, setprop]
     split
     · rename_i r' hacc
@@ -354,7 +364,8 @@ theorem preserve_instantiate (T : Tables) (w : World) (n c : Name) (cfg : List (
   have hinv := freshInv_foldl w.heap.length allocView (freshInv_allocView _)
     (instViews T (describeH w (.cls c)) cfg) (w.heap, []) ⟨Nat.le_refl _, by simp⟩
   have hfind : (instantiate T w n c cfg).findInst n =
-      some ⟨n, c, ((instViews T (describeH w (.cls c)) cfg).foldl allocView (w.heap, [])).2⟩ := by
+      some ⟨n, c, ((instViews T (describeH w (.cls c)) cfg).foldl allocView (w.heap, [])).2,
+        instMVals (describeM w (.cls c)) cfg⟩ := by
     unfold World.findInst instantiate
     exact find?_append_new _ _ _ hadm (by simp)
   have hroots : (instantiate T w n c cfg).roots (.inst n) =
@@ -468,7 +479,8 @@ theorem describe_instantiate (T : Tables) (w : World) (n c : Name) (cfg : List (
       (instViews T (describeH w (.cls c)) cfg).map (fun nv => (nv.1, some nv.2)) := by
   have hinv := viewsInv_foldl (instViews T (describeH w (.cls c)) cfg) (w.heap, []) [] ⟨rfl, by simp⟩
   have hfind : (instantiate T w n c cfg).findInst n =
-      some ⟨n, c, ((instViews T (describeH w (.cls c)) cfg).foldl allocView (w.heap, [])).2⟩ := by
+      some ⟨n, c, ((instViews T (describeH w (.cls c)) cfg).foldl allocView (w.heap, [])).2,
+        instMVals (describeM w (.cls c)) cfg⟩ := by
     unfold World.findInst instantiate
     exact find?_append_new _ _ _ hadm (by simp)
   have hacc : (instantiate T w n c cfg).accessiblesOf (.inst n) =
@@ -551,11 +563,12 @@ theorem accAt_set_dt {h : Heap} {rd : Ref} {t : DTree} (hd : h.dtAt rd = some t)
     | some o => cases o with
       | acc a => simp [hr] at hd
       | dt t0 => rfl
+      | prop p0 => rfl
   · exact accAt_congr (getElem?_set_ne' hx)
 
-theorem records_mutation (T : Tables) (w : World) (op : Op) (hop : (∃ i p k v, op = .setprop i p k v) ∨ ∃ i p m, op = .addEnum i p m) :
+theorem records_mutation (T : Tables) (w : World) (op : Op) (hop : (∃ i p pa k v, op = .setprop i p pa k v) ∨ ∃ i p m, op = .addEnum i p m) :
     (step T w op).classes = w.classes ∧ (step T w op).insts = w.insts := by
-  rcases hop with ⟨i, p, k, v, rfl⟩ | ⟨i, p, m, rfl⟩
+  rcases hop with ⟨i, p, pa, k, v, rfl⟩ | ⟨i, p, m, rfl⟩
   · simp only [step, setprop]
     repeat' split
     all_goals exact ⟨rfl, rfl⟩
@@ -578,10 +591,10 @@ theorem reachAcc_after_set {h h' : Heap} {r : Ref} {a' : AccH} (hr' : h'.accAt r
   · subst hx; simp only [if_true]; unfold reachAcc; rw [hr']
   · simp only [hx, if_false]; unfold reachAcc; rw [hother x hx]
 
-theorem preserve_setprop (T : Tables) (w : World) (i p k : Name) (v : PVal) (hb : Bounded w) (hs : Separated w) :
-    Bounded (setprop T w i p k v) ∧ Separated (setprop T w i p k v) := by
-  have hrec := records_mutation T w (.setprop i p k v) (Or.inl ⟨i, p, k, v, rfl⟩)
-  have hframe := fun x hx hn => frame_step T w (.setprop i p k v) x hx hn
+theorem preserve_setprop (T : Tables) (w : World) (i p : Name) (pa : List Nat) (k : Name) (v : PVal) (hb : Bounded w) (hs : Separated w) :
+    Bounded (setprop T w i p pa k v) ∧ Separated (setprop T w i p pa k v) := by
+  have hrec := records_mutation T w (.setprop i p pa k v) (Or.inl ⟨i, p, pa, k, v, rfl⟩)
+  have hframe := fun x hx hn => frame_step T w (.setprop i p pa k v) x hx hn
   simp only [step] at hrec hframe
   apply preserve_of_target_write w _ i (roots_of_records hrec.1 hrec.2) ?_ hframe hb hs
   · -- what the instance reaches afterwards
@@ -694,6 +707,49 @@ theorem preserve_addEnum (T : Tables) (w : World) (i p m : Name) (hb : Bounded w
     all_goals simp [enumHeap]
 
 
+/-! ### the classes along the MRO -/
+
+theorem findClass_restrictTo (w : World) (mro : List Name) (c : Name) :
+    (w.restrictTo mro).findClass c = if mro.contains c then w.findClass c else none := by
+  unfold World.findClass World.restrictTo
+  simp only
+  generalize w.classes = l
+  induction l with
+  | nil => simp
+  | cons a l ih =>
+    rw [List.filter_cons]
+    cases hm : mro.contains a.pure.decl.name with
+    | true =>
+      simp only [if_true, List.find?_cons]
+      cases hb : (a.pure.decl.name == c) with
+      | true =>
+        have ha : a.pure.decl.name = c := by simpa using hb
+        rw [ha] at hm
+        simp only [hm, if_true]
+      | false => simp only [ih]
+    | false =>
+      simp only [Bool.false_eq_true, if_false, List.find?_cons]
+      cases hb : (a.pure.decl.name == c) with
+      | true =>
+        have ha : a.pure.decl.name = c := by simpa using hb
+        rw [ha] at hm
+        simp only [ih, hm, Bool.false_eq_true, if_false]
+      | false => simp only [ih]
+
+theorem findClass_of_restrictTo {w : World} {mro : List Name} {c : Name} {cr : ClassRec}
+    (h : (w.restrictTo mro).findClass c = some cr) : w.findClass c = some cr := by
+  rw [findClass_restrictTo] at h
+  split at h
+  · exact h
+  · cases h
+
+theorem roots_of_restrictTo {w : World} {mro : List Name} {c : Name} {x : Ref}
+    (h : x ∈ (w.restrictTo mro).roots (.cls c)) : x ∈ w.roots (.cls c) := by
+  simp only [World.roots] at h ⊢
+  cases hc : (w.restrictTo mro).findClass c with
+  | none => simp [hc] at h
+  | some cr => rw [findClass_of_restrictTo hc]; simpa [hc] using h
+
 /-! ### class definition keeps the invariants -/
 
 /-- reachable from an existing class -/
@@ -753,12 +809,68 @@ theorem declDt_classReach {w : World} {c n : Name} {cr : ClassRec} {x : Ref} (hc
     (hx : aget? cr.declDt n = some x) : ClassReach w x := by
   refine ⟨c, root_reach (r := x) ?_ (self_mem_reachAcc _ _)⟩
   simp only [World.roots, hc, List.mem_append, List.mem_map]
-  exact Or.inr ⟨(n, x), aget?_mem hx, rfl⟩
+  exact Or.inl (Or.inl (Or.inr ⟨(n, x), aget?_mem hx, rfl⟩))
 
 theorem accRef_root {w : World} {c n : Name} {cr : ClassRec} {x : Ref} (hc : w.findClass c = some cr)
     (hx : aget? cr.accRef n = some x) : x ∈ w.roots (.cls c) := by
   simp only [World.roots, hc, List.mem_append, List.mem_map]
+  exact Or.inl (Or.inl (Or.inl (Or.inr ⟨(n, x), aget?_mem hx, rfl⟩)))
+
+theorem propRef_root {w : World} {c n : Name} {cr : ClassRec} {x : Ref} (hc : w.findClass c = some cr)
+    (hx : aget? cr.propRef n = some x) : x ∈ w.roots (.cls c) := by
+  simp only [World.roots, hc, List.mem_append, List.mem_map]
   exact Or.inl (Or.inr ⟨(n, x), aget?_mem hx, rfl⟩)
+
+theorem propertyRef_ok {w : World} {self : Name} {own : List (Name × Ref)} {ns : Name × PSlot} {nr : Name × Ref}
+    (h : propertyRef w self own ns = some nr) :
+    nr ∈ own ∨ ∃ c, nr.2 ∈ w.roots (.cls c) := by
+  unfold propertyRef at h
+  split at h
+  · cases hg : aget? own ns.1 with
+    | none => simp [hg] at h
+    | some r =>
+      simp only [hg, Option.map_some, Option.some.injEq] at h
+      subst h
+      exact Or.inl (aget?_mem hg)
+  · cases hc : w.findClass ns.2.owner with
+    | none => simp [hc] at h
+    | some cr =>
+      cases hg : aget? cr.propRef ns.1 with
+      | none => simp [hc, hg] at h
+      | some r =>
+        simp only [hc, Option.bind_some, hg, Option.map_some, Option.some.injEq] at h
+        subst h
+        exact Or.inr ⟨_, propRef_root hc hg⟩
+
+/-- pass 0 creates Property objects only: each is new and reaches nothing but itself -/
+def PropInv (base : Nat) (st : Heap × List (Name × Ref)) : Prop :=
+  base ≤ st.1.length ∧ ∀ nr ∈ st.2, (base ≤ nr.2 ∧ nr.2 < st.1.length) ∧ ∃ p, st.1[nr.2]? = some (Obj.prop p)
+
+theorem propInv_allocProp (base : Nat) (st : Heap × List (Name × Ref)) (ke : Name × EntryV)
+    (hi : PropInv base st) : PropInv base (allocProp st ke) := by
+  unfold allocProp
+  split
+  · rename_i p _
+    refine ⟨by simp; have := hi.1; omega, ?_⟩
+    intro nr hnr
+    simp only [List.mem_append, List.mem_singleton] at hnr
+    rcases hnr with hold | rfl
+    · obtain ⟨h0, q, hq⟩ := hi.2 nr hold
+      refine ⟨⟨h0.1, Nat.lt_of_lt_of_le h0.2 (by simp)⟩, q, ?_⟩
+      simp only
+      rw [List.getElem?_append_left h0.2]; exact hq
+    · refine ⟨⟨hi.1, by simp⟩, p, ?_⟩
+      simp
+  · exact hi
+
+theorem propInv_foldl (base : Nat) (l : List (Name × EntryV)) (st : Heap × List (Name × Ref))
+    (hi : PropInv base st) : PropInv base (l.foldl allocProp st) := by
+  induction l generalizing st with
+  | nil => exact hi
+  | cons a l ih => exact ih _ (propInv_allocProp base st a hi)
+
+theorem reachAcc_prop {h : Heap} {r : Ref} {p : PropV} (hp : h[r]? = some (Obj.prop p)) : reachAcc h r = [r] := by
+  unfold reachAcc Heap.accAt; rw [hp]
 
 theorem resolve_ok {w : World} {self : Name} {sd : List (Name × Ref)} {base L : Nat}
     (hsd : ∀ nr ∈ sd, base ≤ nr.2 ∧ nr.2 < L) {id : DtId} {x : Ref} (h : resolveDt w self sd id = some x) :
@@ -908,34 +1020,70 @@ theorem preserve_define (T : Tables) (w : World) (d : ClassDecl) (hadm : w.findC
   have hfind : (layout w cv).findClass d.name = some (layoutRec w cv) := by
     have := findClass_layout_new w cv (by rw [hname]; exact hadm)
     rwa [hname] at this
+  have s0inv : PropInv w.heap.length (layoutProp w cv) :=
+    propInv_foldl _ cv.dict (w.heap, []) ⟨Nat.le_refl _, by simp⟩
+  have he01 : Extends (layoutProp w cv).1 (layoutDecl w cv).1 :=
+    extends_foldl _ (extends_allocDecl _) cv.dict ((layoutProp w cv).1, [])
   have s1inv : FreshOrInv w.heap.length (ClassReach w) (layoutDecl w cv) :=
-    freshOrInv_foldl _ _ _ (freshOrInv_allocDecl _ _ _) cv.dict (w.heap, []) ⟨Nat.le_refl _, by simp⟩
+    freshOrInv_foldl _ _ _ (freshOrInv_allocDecl _ _ _) cv.dict ((layoutProp w cv).1, []) ⟨s0inv.1, by simp⟩
   have hsd : ∀ nr ∈ (layoutDecl w cv).2, w.heap.length ≤ nr.2 ∧ nr.2 < (layoutDecl w cv).1.length :=
     fun nr h => (s1inv.2 nr h).1
-  have s2inv : FreshOrInv w.heap.length (ClassReach w) (layoutAcc w cv (layoutDecl w cv)) :=
-    freshOrInv_layoutAcc w cv.decl.name _ _ _ hsd cv.dict ((layoutDecl w cv).1, [])
+  have hreach : ∀ x, ClassReach (w.restrictTo cv.decl.mro.tail) x → ClassReach w x := by
+    rintro x ⟨c, hc⟩
+    obtain ⟨root, hroot, hx⟩ := List.mem_flatMap.1 hc
+    exact ⟨c, List.mem_flatMap.2 ⟨root, roots_of_restrictTo hroot, hx⟩⟩
+  have s2inv : FreshOrInv w.heap.length (ClassReach (w.restrictTo cv.decl.mro.tail))
+      (layoutAcc (w.restrictTo cv.decl.mro.tail) cv (layoutDecl w cv)) :=
+    freshOrInv_layoutAcc (w.restrictTo cv.decl.mro.tail) cv.decl.name _ _ _ hsd cv.dict ((layoutDecl w cv).1, [])
       ⟨⟨s1inv.1, by simp⟩, Nat.le_refl _⟩
-  have he12 : Extends (layoutDecl w cv).1 (layoutAcc w cv (layoutDecl w cv)).1 :=
+  have he12 : Extends (layoutDecl w cv).1 (layoutAcc (w.restrictTo cv.decl.mro.tail) cv (layoutDecl w cv)).1 :=
     extends_foldl _ (extends_allocAcc _ _ _) cv.dict ((layoutDecl w cv).1, [])
-  have hheap : (layout w cv).heap = (layoutAcc w cv (layoutDecl w cv)).1 := rfl
+  have hheap : (layout w cv).heap = (layoutAcc (w.restrictTo cv.decl.mro.tail) cv (layoutDecl w cv)).1 := rfl
   -- objects of the new class: from pass 2
-  have own2 : ∀ nr ∈ (layoutAcc w cv (layoutDecl w cv)).2, ∀ x ∈ reachAcc (layout w cv).heap nr.2,
+  have own2 : ∀ nr ∈ (layoutAcc (w.restrictTo cv.decl.mro.tail) cv (layoutDecl w cv)).2, ∀ x ∈ reachAcc (layout w cv).heap nr.2,
       (w.heap.length ≤ x ∧ x < (layout w cv).heap.length) ∨ ClassReach w x := by
     intro nr hnr x hx
     rw [hheap] at hx ⊢
-    exact (s2inv.2 nr hnr).2 x hx
+    rcases (s2inv.2 nr hnr).2 x hx with h | h
+    · exact Or.inl h
+    · exact Or.inr (hreach x h)
   unfold reach at hr
   simp only [World.roots, hfind] at hr
   obtain ⟨root, hroot, hx⟩ := List.mem_flatMap.1 hr
   have hgoal : (w.heap.length ≤ r ∧ r < (layout w cv).heap.length) ∨ ClassReach w r := by
     simp only [List.mem_append, List.mem_map] at hroot
-    rcases hroot with (⟨nr, hnr, rfl⟩ | ⟨nr, hnr, rfl⟩) | ⟨nr, hnr, rfl⟩
+    have own0 : ∀ nr ∈ (layoutProp w cv).2, ∀ x ∈ reachAcc (layout w cv).heap nr.2,
+        (w.heap.length ≤ x ∧ x < (layout w cv).heap.length) ∨ ClassReach w x := by
+      intro nr hnr x hx
+      obtain ⟨h0, p, hp⟩ := s0inv.2 nr hnr
+      have hcell : (layout w cv).heap[nr.2]? = some (Obj.prop p) := by
+        rw [hheap, (he01.trans he12).get h0.2]; exact hp
+      rw [reachAcc_prop hcell] at hx
+      simp only [List.mem_singleton] at hx
+      subst hx
+      left
+      rw [hheap]
+      exact ⟨h0.1, Nat.lt_of_lt_of_le h0.2 (he01.trans he12).len⟩
+    rcases hroot with (((⟨nr, hnr, rfl⟩ | ⟨nr, hnr, rfl⟩) | ⟨nr, hnr, rfl⟩) | ⟨nr, hnr, rfl⟩) | ⟨nr, hnr, rfl⟩
+    rotate_left 3
+    · -- a Property object of the class' `__dict__`
+      exact own0 nr hnr r hx
+    · -- an entry of `propertyDict`: own, or lying in the `__dict__` of an existing class
+      simp only [layoutRec] at hnr
+      obtain ⟨ns, _, hns⟩ := List.mem_filterMap.1 hnr
+      rcases propertyRef_ok hns with h | ⟨c, hc⟩
+      · exact own0 nr h r hx
+      · right
+        rw [reachAcc_congr ((extends_layout w cv).get (root_lt hb hc))] at hx
+        exact ⟨c, root_reach hc hx⟩
     · -- an accessible
-      have hcases : nr ∈ (layoutAcc w cv (layoutDecl w cv)).2 ∨ ∃ c, nr.2 ∈ w.roots (.cls c) := by
+      have hcases : nr ∈ (layoutAcc (w.restrictTo cv.decl.mro.tail) cv (layoutDecl w cv)).2 ∨ ∃ c, nr.2 ∈ w.roots (.cls c) := by
         simp only [layoutRec, layoutAccessibles] at hnr
         split at hnr
         · obtain ⟨ns, _, hns⟩ := List.mem_filterMap.1 hnr
-          exact accessibleRef_ok hns
+          rcases accessibleRef_ok hns with h | ⟨c, hc⟩
+          · exact Or.inl h
+          · exact Or.inr ⟨c, roots_of_restrictTo hc⟩
         · exact Or.inl (dictAccs_mem hnr)
       rcases hcases with h | ⟨c, hc⟩
       · exact own2 nr h r hx
@@ -953,6 +1101,66 @@ theorem preserve_define (T : Tables) (w : World) (d : ClassDecl) (hadm : w.findC
   · exact Or.inl h
   · exact Or.inr ⟨⟨d.name, rfl⟩, c, hc⟩
 
+
+/-! ### module properties -/
+
+theorem propAt_congr {h h' : Heap} {r : Ref} (e : h'[r]? = h[r]?) : h'.propAt r = h.propAt r := by
+  unfold Heap.propAt; rw [e]
+
+theorem findClass_step_ne (T : Tables) (w : World) (op : Op) (n : Name) (ho : Owner.cls n ≠ op.target) :
+    (step T w op).findClass n = w.findClass n := by
+  cases op with
+  | define d =>
+    have hname : (pureDefine T (chainOf w d) d).decl.name = d.name := by rw [pureDefine_decl]
+    have hn : n ≠ (pureDefine T (chainOf w d) d).decl.name := by
+      rw [hname]; intro h; exact ho (by simp [Op.target, h])
+    simp only [step, defineClass, findClass_layout_ne _ _ _ hn]
+  | inst n' c cfg => rfl
+  | setprop i p pa k v =>
+    have := (records_mutation T w (.setprop i p pa k v) (Or.inl ⟨i, p, pa, k, v, rfl⟩)).1
+    simp only [World.findClass, this]
+  | addEnum i p m =>
+    have := (records_mutation T w (.addEnum i p m) (Or.inr ⟨i, p, m, rfl⟩)).1
+    simp only [World.findClass, this]
+
+theorem findInst_step_ne (T : Tables) (w : World) (op : Op) (m : Name) (ho : Owner.inst m ≠ op.target) :
+    (step T w op).findInst m = w.findInst m := by
+  cases op with
+  | define d => rfl
+  | inst n c cfg =>
+    have hm : m ≠ n := by intro h; exact ho (by simp [Op.target, h])
+    exact findInst_instantiate_ne T w n c cfg m hm
+  | setprop i p pa k v =>
+    have := (records_mutation T w (.setprop i p pa k v) (Or.inl ⟨i, p, pa, k, v, rfl⟩)).2
+    simp only [World.findInst, this]
+  | addEnum i p m' =>
+    have := (records_mutation T w (.addEnum i p m') (Or.inr ⟨i, p, m', rfl⟩)).2
+    simp only [World.findInst, this]
+
+theorem propDict_root {w : World} {c : Name} {cr : ClassRec} {nr : Name × Ref} (hc : w.findClass c = some cr)
+    (h : nr ∈ cr.propDict) : nr.2 ∈ w.roots (.cls c) := by
+  simp only [World.roots, hc, List.mem_append, List.mem_map]
+  exact Or.inr ⟨nr, h, rfl⟩
+
+/-- no operation writes to an object reachable from a class: class definition and instantiation only append,
+the two mutations write inside their target instance, which shares nothing with a class -/
+theorem class_cell_step (T : Tables) (w : World) (op : Op) (hb : Bounded w) (hs : Separated w) (c : Name) (r : Ref)
+    (hr : r ∈ reach w (.cls c)) : (step T w op).heap[r]? = w.heap[r]? := by
+  have hlt := hb _ r hr
+  cases op with
+  | define d => exact (extends_define T w d).get hlt
+  | inst n c' cfg => exact (extends_instantiate T w n c' cfg).get hlt
+  | setprop i p pa k v => exact frame_step T w _ r hlt (fun hc => hs i (.cls c) (by simp) r hc hr)
+  | addEnum i p m => exact frame_step T w _ r hlt (fun hc => hs i (.cls c) (by simp) r hc hr)
+
+/-- the module properties of a class with record `cr` look the same after the operation -/
+theorem propDict_views_step (T : Tables) (w : World) (op : Op) (hb : Bounded w) (hs : Separated w) {c : Name}
+    {cr : ClassRec} (hc : w.findClass c = some cr) (f : Name → Option PVal) :
+    cr.propDict.map (fun nr => (nr.1, (⟨(step T w op).heap.propAt nr.2, f nr.1⟩ : MView))) =
+      cr.propDict.map (fun nr => (nr.1, (⟨w.heap.propAt nr.2, f nr.1⟩ : MView))) := by
+  apply List.map_congr_left
+  intro nr hnr
+  rw [propAt_congr (class_cell_step T w op hb hs c nr.2 (root_reach (propDict_root hc hnr) (self_mem_reachAcc _ _)))]
 
 /-! ### what a class is computed from: refinement to `pureOf` -/
 
@@ -1013,8 +1221,8 @@ theorem pureInv_step (T : Tables) (env : Name → Option ClassDecl) (w : World) 
   cases op with
   | define d => exact pureInv_define T env w d hadm hcons hinv
   | inst n c cfg => exact fun m cr h => hinv m cr (by rwa [step, findClass_instantiate] at h)
-  | setprop i p k v =>
-    have := (records_mutation T w (.setprop i p k v) (Or.inl ⟨i, p, k, v, rfl⟩)).1
+  | setprop i p pa k v =>
+    have := (records_mutation T w (.setprop i p pa k v) (Or.inl ⟨i, p, pa, k, v, rfl⟩)).1
     exact fun m cr h => hinv m cr (by simpa only [World.findClass, this] using h)
   | addEnum i p m' =>
     have := (records_mutation T w (.addEnum i p m') (Or.inr ⟨i, p, m', rfl⟩)).1
